@@ -154,3 +154,45 @@ for i, hn in enumerate(HOSTILE_NAMES):
              consts={"ISKW": __import__("keyword").iskeyword},
              scenarios=_sanitizer_scenarios([hn]), notes=[f"hostile name {hn!r}"],
              clause_props={"raises-nothing": ["C19"], "identifier": ["C19"], "modifies-nothing": ["C20"]})
+
+
+# ---------------------------------------------------------------------------------------------- attribute access in generated dumpers (C19)
+FD = "morphing/model/dumper_gen.py"
+ATTR_NAMES = ["a", "from", "class", "None", "x y", "a.b", "ñ", "_private", "a'b", 'a"b', "import", "data", "1st", "a\nb"]
+
+
+class _Holder:
+    pass
+
+
+def _access_ok(expr, name):
+    """the access expression is valid source and reads exactly the attribute `name` of `data`"""
+    h = _Holder()
+    marker = object()
+    try:
+        setattr(h, name, marker)
+        return eval(expr, {"__builtins__": builtins, "data": h}) is marker  # noqa: S307
+    except BaseException:  # noqa: BLE001
+        return False
+
+
+def _field_for(name):
+    def mk(m):
+        from types import MappingProxyType
+
+        from adaptix._internal.model_tools.definitions import NoDefault, OutputField, create_attr_accessor
+        return OutputField(id="f", type=int, default=NoDefault(), metadata=MappingProxyType({}), original=None,
+                           accessor=create_attr_accessor(name, is_required=True))
+    return mk
+
+
+for i, an in enumerate(ATTR_NAMES):
+    contract(FD, "BuiltinModelDumperGen._gen_access_expr", name=f"{FD}:BuiltinModelDumperGen._gen_access_expr[attr{i}]", props=["C19"],
+             params={"self": ("const", None), "namespace": ("const", None), "field": ("constf", _field_for(an))},
+             consts={"ACCESS_OK": _access_ok, "NAME": an}, frame=False,
+             post={"raises-nothing": "returned",
+                   "reads-the-attribute": "implies(returned, py(lambda r: type(r) is str and ACCESS_OK(r, NAME), result))"},
+             scenarios=(lambda mod, an=an: [(repr(an), (lambda: (mod.BuiltinModelDumperGen._gen_access_expr,
+                                                                {"self": None, "namespace": None, "field": _field_for(an)(mod)},
+                                                                {"ACCESS_OK": _access_ok, "NAME": an})))]),
+             notes=[f"attribute named {an!r}"])
